@@ -1,4 +1,4 @@
-import Ufo2ftModel.Model.C06
+import Ufo2ftModel.Model.C06Ctx
 /-!
 C06 — generated mark features make matching anchors coincide: the statement.
 
@@ -109,11 +109,16 @@ def plainKey (k : List Char) : Bool :=
   | [] => false
   | c :: _ => c.isAlpha && !endsSepDigits k
 
-/-- `g` carries a base-side anchor of key `k` (`k` or `k_N`) -/
+/-- the name under which an anchor takes part in pairing: a contextual anchor ('*'-prefixed WITH object-lib data) counts
+    under its name without the '*' and without the '.suffix' -/
+def pairName (a : SrcAnchor) : List Char :=
+  if a.lib.isSome then effName a.name.toList else a.name.toList
+
+/-- `g` carries a base-side anchor of key `k` (`k` or `k_N`), plain or contextual -/
 def hasBaseSide (g : SrcGlyph) (k : List Char) : Bool :=
-  g.anchors.any (fun a => a.name.toList == k ||
-    ((k ++ ['_']).isPrefixOf a.name.toList && !(a.name.toList.drop (k.length + 1)).isEmpty &&
-      (a.name.toList.drop (k.length + 1)).all Char.isDigit))
+  g.anchors.any (fun a => pairName a == k ||
+    ((k ++ ['_']).isPrefixOf (pairName a) && !((pairName a).drop (k.length + 1)).isEmpty &&
+      ((pairName a).drop (k.length + 1)).all Char.isDigit))
 
 /-- "mark glyph" in the writer's sense: (listed as a mark when categories exist and) it has a `_k` anchor whose
     key is answered by some base-side anchor in the font -/
@@ -147,6 +152,25 @@ def allQueries (i : Input) (K : Nat) : List Query :=
 def holdsComplete (i : Input) (K : Nat) (T : Table) : Bool :=
   (allQueries i K).all (fun q => !eligible i q.1 q.2.1 q.2.2 || T.any (fun e => e.1 == q))
 
+/-- contextual candidates: offsets "contextual anchor on b minus anchor on m": the anchor on `b` is '*'-prefixed, carries
+    object-lib data, and its name without '*' and '.suffix' answers the key of `_k` on `m` -/
+def ctxCandidates (i : Input) (b m : String) (c : Option Nat) : List (Int × Int) :=
+  match findGlyph i b, findGlyph i m with
+  | some gb, some gm =>
+    gm.anchors.flatMap (fun am =>
+      match markKey am.name.toList with
+      | some k =>
+        (gb.anchors.filter (fun ab => ab.lib.isSome && ab.name.toList.head? == some '*' &&
+            baseNameMatches k c (effName ab.name.toList))).map (fun ab =>
+          (qround i.quant ab.x - qround i.quant am.x, qround i.quant ab.y - qround i.quant am.y))
+      | none => [])
+  | _, _ => []
+
+/-- C06_ctx_offset: every attachment of a lookup referenced from a contextual (chaining) rule is contextual anchor −
+    mark anchor for a matching pair of source anchors -/
+def holdsCtxOffset (i : Input) (T : Table) : Bool :=
+  T.all (fun e => (ctxCandidates i e.1.1 e.1.2.1 e.1.2.2).contains e.2)
+
 /-- the table a program yields on a list of queries -/
 def tableOf (P : Program) (ls : List Lookup) (qs : List Query) : Table :=
   qs.filterMap (fun q => (attach P ls q.1 q.2.1 q.2.2).map (fun d => (q, d)))
@@ -156,10 +180,15 @@ def tableOf (P : Program) (ls : List Lookup) (qs : List Query) : Table :=
     anchor names give different mark class names); glyph names are distinct; the feature file defines no mark class of
     its own (with hand-written classes the generated class names, and so which candidate wins, depend on them: covered by
     the correspondence run and the predicates on observed fonts only) -/
-def wf (i : Input) : Bool :=
+def wf0 (i : Input) : Bool :=
   i.pre.isEmpty &&
   i.glyphs.all (fun g => g.anchors.all (fun a => a.name.toList.head? != some '_' || sanitize a.name == a.name)) &&
   decide ((i.glyphs.map (·.name)).Nodup) &&
   i.glyphs.all (fun g => i.abvm.contains g.name || i.notAbvm.contains g.name)
+
+/-- `wf0` and no anchor carries object-lib data (no contextual attachments, no `public.objectLibs` access): the inputs of
+    the theorems about the complete set of lookups; the contextual theorems need `wf0` only -/
+def wf (i : Input) : Bool :=
+  wf0 i && i.glyphs.all (fun g => g.anchors.all (fun a => a.lib.isNone && !a.idNoLib))
 
 end Ufo2ft.C06
